@@ -69,6 +69,15 @@ def run(C, R):
                 for e in path.events:
                     if e['k'] == 'write' and loc_endswith(e['loc'], 'permits') and e['val'][0] == 'bin' \
                             and e['val'][1] == 'Sub':
+                        rty = m['locals'][0]['ty']
+                        grants = rty.get('str') == 'bool' or rty.get('name') == 'bool' or rty.get('path') == 'std::task::Poll' \
+                            or rty.get('k') == 'bool' or any(
+                                w['k'] == 'write' and loc_endswith(w['loc'], 'state') and w['val'][0] == 'agg'
+                                and w['val'][2] == 'Done' for w in path.events)
+                        if not grants:
+                            # permits leave the ledger without any request being completed (C05.R3 reports that);
+                            # service ORDER is about grants
+                            continue
                         nsub += 1
                         x = e['val'][3]
                         why = gate(E, path, owns, x)
